@@ -17,6 +17,18 @@ func main() {
 		cmdDump(os.Args[2:])
 	case "list":
 		cmdList(os.Args[2:])
+	case "dumpinit":
+		P, _ := loadProgram(repoDir(), defaultPatterns)
+		for path, sp := range P.SPkgs {
+			if strings.HasSuffix(path, os.Args[2]) {
+				sp.Func("init").WriteTo(os.Stdout)
+			}
+		}
+	case "dbgglobals":
+		E, _ := setup()
+		E.debugGlobals()
+	case "verify":
+		cmdVerify(os.Args[2:])
 	default:
 		fmt.Fprintln(os.Stderr, "unknown command", os.Args[1])
 		os.Exit(2)
@@ -63,5 +75,100 @@ func cmdDump(args []string) {
 			continue
 		}
 		fn.WriteTo(os.Stdout)
+	}
+}
+
+func setup() (*Env, *Verifier) {
+	P, err := loadProgram(repoDir(), defaultPatterns)
+	if err != nil {
+		fmt.Fprintln(os.Stderr, err)
+		os.Exit(2)
+	}
+	E := NewEnv(P)
+	E.installStringAxioms()
+	E.Specs = NewSpecDB()
+	assumedDir := "/verif/assumed"
+	if d := os.Getenv("GOVC_ASSUMED"); d != "" {
+		assumedDir = d
+	}
+	ents, _ := os.ReadDir(assumedDir)
+	for _, e := range ents {
+		if strings.HasSuffix(e.Name(), ".spec") {
+			if err := E.Specs.LoadSpecFile(assumedDir+"/"+e.Name(), "", true); err != nil {
+				fmt.Fprintln(os.Stderr, err)
+				os.Exit(2)
+			}
+		}
+	}
+	notes, err := E.Specs.LoadRepoSpecs(P, "/verif/contracts")
+	if err != nil {
+		fmt.Fprintln(os.Stderr, err)
+		os.Exit(2)
+	}
+	for _, n := range notes {
+		fmt.Fprintln(os.Stderr, "note:", n)
+	}
+	work := os.Getenv("GOVC_WORK")
+	if work == "" {
+		work = "/verif/work/smt"
+	}
+	V := &Verifier{E: E, Solver: NewSolverPool(work)}
+	return E, V
+}
+
+func cmdVerify(args []string) {
+	E, V := setup()
+	lock := false
+	verbose := false
+	var keys []string
+	for _, a := range args {
+		switch a {
+		case "-lock":
+			lock = true
+		case "-v":
+			verbose = true
+		case "-keep":
+			V.Solver.KeepFiles = true
+		default:
+			keys = append(keys, a)
+		}
+	}
+	bad := 0
+	for _, k := range keys {
+		var r *FuncResult
+		if strings.HasPrefix(k, "lemma:") {
+			r = V.VerifyLemma(strings.TrimPrefix(k, "lemma:"))
+		} else {
+			r = V.VerifyFunc(k, lock)
+		}
+		if r.Error != "" {
+			fmt.Printf("%s: ERROR %s\n", k, r.Error)
+			bad++
+			continue
+		}
+		V.Solver.Discharge(E.TS, r.Obls, 10, false)
+		np := 0
+		for _, o := range r.Obls {
+			if o.Status == "proved" {
+				np++
+			}
+			if verbose || o.Status != "proved" {
+				fmt.Printf("  [%s] %-9s %-8s %s  (%s %.2fs) %s\n", o.Status, o.Kind, o.Pos, o.Name, o.Solver, o.Secs, "")
+				if o.Status != "proved" && verbose {
+					fmt.Println("     hyp:", E.TS.Show(o.Hyp))
+					fmt.Println("     goal:", E.TS.Show(o.Goal))
+				}
+			}
+		}
+		fmt.Printf("%s: %d/%d obligations proved; houdini=%v uncontracted=%v inlined=%v\n", k, np, len(r.Obls), r.Houdini, r.Uncontr, r.Inlined)
+		if np != len(r.Obls) {
+			bad++
+		}
+	}
+	for _, w := range E.Warnings {
+		fmt.Println("warning:", w)
+	}
+	if bad > 0 {
+		os.Exit(1)
 	}
 }
